@@ -1,58 +1,18 @@
 #!/usr/bin/env python3
-"""Regenerates /verif/MANIFEST.json from the tables below (single source of truth)."""
+"""Regenerates /verif/MANIFEST.json from tools/claims.json (single source of truth)."""
 import json, os, subprocess
 
 HERE = os.path.dirname(os.path.dirname(os.path.abspath(__file__)))
-
 TECH = "contract-based deductive verification: weakest-precondition VCs over go/ssa of the real functions, contracts in build-tag-guarded comment files, discharged by z3/cvc5"
 
-# id -> (level text, level_note, design_ref)
-CLAIMED = {
- "C08": ("backoffDelay is proved equal to min(initial*2^(n-1), max) (spec in 128-bit arithmetic) for all 2^192 inputs in exact 64-bit bit-vector semantics; monotonicity and range are lemmas over the spec function; recordFault's reset/increment rule is proved over the real atomics code.",
-         "Assumes WithExponentialBackoff's normalisation initial<=max (precondition). time.Now() unconstrained. Sequential reading of recordFault (it runs on the parent's turn).", "§5 C08"),
- "C22": ("RoundRobin.Next: no panic, returns a configured node, advances cyclically - proved in exact uint32/int64 bit-vector semantics for every counter value (including the wrap) and every pool size 1..2^32.",
-         "Requires a non-empty pool (a caller obligation). Lock operations are no-ops (sequential reading of a lock-protected method).", "§5 C22"),
- "C21": ("Round-robin routing: for every cursor value and pool size 1..2^32 the routed message goes to routees[cursor mod n], exactly one Tell is issued, no index panic, and the cursor advances cyclically (so the k-th message goes to routee (k-1) mod n, also across what used to be the uint32 wrap). Structural obligation: the cursor has a single writer.",
-         "Fan-out ('every routee exactly once') and consistent-hash clauses are NOT covered by this check: fan-out Tells are issued from spawned goroutines (delivery is C02's business), the hash-ring lemma is not built. ctx.Tell is an assumed frame (it does not write router fields), backed by the single-writer structural obligation. rand.IntN assumed in [0,n).", "§5 C21"),
- "C48": ("TTLMap: representation invariant (every mapped key points at a slot of the live region holding that key) preserved by Set/Get/Delete/Reset/ActiveLen/evict; Get finds a key iff it is mapped and not expired and returns the stored value, drops it otherwise; Set stores (v, now+ttl), keeps every other entry or drops it only if expired, never revives; evict never drops a live entry (loop invariants over the index map, generic K/V as uninterpreted sorts).",
-         "maybeCompact's contract (abstract map preserved) is ASSUMED, not yet verified (compaction loops + pigeonhole step) - listed in evidence.assumptions. History statement follows by induction over operations (meta-argument). now+ttl assumed not to overflow. Lock operations are no-ops (sequential reading).", "§5 C48"),
- "C47": ("Bucket window: representation invariant preserved, no index/div panic for any clock value (also backwards), advance clears exactly the buckets it passes (ring-indexed quantified invariant), hard reset, add increments exactly one counter and returns the window totals (recursive sum spec). State machine: record opens exactly when total>=minRequests and float64(fail)/float64(total)>=failureRate (IEEE semantics), closes exactly when probing succeeded; transitionTo arms openUntil only on a real transition to Open; tryAcquire rejects while open until the timeout and admits a probe only by taking a free semaphore slot (<= halfOpenMaxCalls).",
-         "Sequential reading of lock-protected methods (Lock/Unlock are no-ops; the representation invariant is a pre/postcondition of every method). Races between concurrent record() calls are not covered. Channel modelled as a counter. time.Time observed through UnixNano only (assumed contracts in contracts/stdlib.spec). uint64 additions assumed not to overflow.", "§5 C47"),
-}
-
-NA = {
- "C03": "per-sender order is decided inside lock-free MPSC/ring/segment queues under producer interleavings; no SMT-dischargeable function contract expresses their linearisation order",
- "C04": "the property is linearizability of CAS/Swap pointer structures with pooled nodes; needs a concurrent separation logic, unavailable for Go and not reproducible by a WP generator",
- "C06": "temporal ordering of PreStart/Receive/PostStop across goroutines, locks, flag words and user hooks for every stop path; not a function-level pre/postcondition",
- "C09": "post-state over an errgroup fan-out, per-actor stop locks and an asynchronous death-watch actor under concurrent stops/spawns",
- "C10": "'exactly one Terminated' is a linearisation question between watcher snapshots, Tell and UnWatch on different goroutines",
- "C11": "decided by a channel/sync.Map single-flight under concurrent callers; not a small closed set of atomic cells amenable to thread-modular contracts",
- "C12": "wall-clock timing between a timer goroutine and message arrival ('within the last T up to 100ms slack')",
- "C15": "reply/channel identity across sync.Pool reuse with timeouts: interleaving of channel operations, not expressible as a function contract",
- "C17": "system-wide shutdown choreography across guardians, grains, dispatcher and remoting",
- "C18": "'exactly once' per message across four asynchronous drop paths ending in an actor Tell and a counter read by Ask",
- "C19": "timing/cancellation is go-quartz's, the cluster tick claim is olric's put-if-absent across nodes; goakt code is an adapter whose contract would assume the property",
- "C20": "delivery goes through a Michael-Scott queue with pooled nodes (same reason as C04)",
- "C24": "transparency is a property of the klauspost/brotli streaming codecs; the goakt wrappers only forward",
- "C25": "round-trip is a property of protobuf-go / cbor / sonic (reflection, JIT assembly); the dispatch loop does not decide it",
- "C27": "order and no-silent-drop come from a writer goroutine, channels and failure callbacks under transport faults",
- "C28": "request/response pairing comes from exclusive use of pooled connections across goroutines and the network",
- "C29": "attachment of metadata to its own message across concurrent batching (byte layout part belongs to C23)",
- "C30": "interleavings of registry operations by several nodes with crash points; the registry is olric",
- "C31": "C06 for grains: temporal ordering across goroutines",
- "C36": "cluster-wide at-most-one under leadership changes: memberlist/olric behaviour",
-}
-
-# planned in DESIGN.md but no check registered (yet): listed so that every unclaimed property has a reason
-PENDING = {}
-
 def main():
-    props = [json.loads(l) for l in open(os.path.join(HERE, "properties.jsonl"))]
-    ids = [p["id"] for p in props]
+    data = json.load(open(os.path.join(HERE, "tools", "claims.json")))
+    CLAIMED, NA = data["claimed"], data["na"]
+    ids = [json.loads(l)["id"] for l in open(os.path.join(HERE, "properties.jsonl"))]
     checks = []
     for pid in ids:
         if pid in CLAIMED:
-            text, note, ref = CLAIMED[pid]
+            c = CLAIMED[pid]
             checks.append({
                 "property_id": pid,
                 "quick_cmd": "./bin/check %s quick" % pid,
@@ -60,18 +20,15 @@ def main():
                 "evidence_file": "/verif/evidence/%s.json" % pid,
                 "replay_cmd_template": "cat {path}/REPORT.txt",
                 "engine": "govc",
-                "level_claimed": {"category": "proof", "text": text, "design_ref": "DESIGN.md " + ref},
-                "level_note": note + " Global trusted base: go/ssa + go/types agree with the compiler; govc's SSA->SMT translation (checked by the must-fail selftest corpus); z3/cvc5 unsat answers; listed per run in evidence.assumptions.",
+                "level_claimed": {"category": "proof", "text": c["text"], "design_ref": "DESIGN.md " + c["ref"]},
+                "level_note": c["note"] + " Global trusted base: go/ssa + go/types agree with the compiler; govc's SSA->SMT translation (checked by the must-fail selftest corpus); z3/cvc5 unsat answers; listed per run in evidence.assumptions.",
                 "technique": TECH,
             })
     na = []
     for pid in ids:
         if pid in CLAIMED:
             continue
-        if pid in NA:
-            na.append({"property_id": pid, "reason": NA[pid]})
-        else:
-            na.append({"property_id": pid, "reason": PENDING.get(pid, "within reach of the technique per DESIGN.md §5 but no contract set has been built and made to discharge robustly in the time available; not claimed")})
+        na.append({"property_id": pid, "reason": NA.get(pid, "within reach of the technique per DESIGN.md §5 but no contract set has been built and made to discharge robustly in the time available; not claimed")})
     hooks = subprocess.run(["git", "-C", "/repo", "log", "--format=%H %s"], capture_output=True, text=True).stdout.strip().split("\n")
     hook_commits = [l.split()[0] for l in hooks if " verif:" in " " + l]
     man = {
